@@ -1,298 +1,15 @@
 package c02
 
 import (
-	"bytes"
-	"context"
-	"fmt"
-	"runtime"
-	"strings"
 	"testing"
 
-	"github.com/cloudwego/dynamicgo/conv"
-	"github.com/cloudwego/dynamicgo/conv/j2t"
-	"github.com/cloudwego/dynamicgo/meta"
-	"github.com/cloudwego/dynamicgo/thrift"
-	"pgregory.net/rapid"
-
-	"verifharness/jmodel"
+	"verifharness/j2tcheck"
 	"verifharness/pbt"
-	"verifharness/tjson"
-	tm "verifharness/tmodel"
 )
 
-func TestMain(m *testing.M) { pbt.Main(m, "C02") }
+func TestMain(m *testing.M)   { pbt.Main(m, "C02") }
 func TestReplay(t *testing.T) { pbt.Replay(t) }
 
-type Opts struct {
-	tjson.Opts
-	DisallowUnknown bool `json:"disallow_unknown,omitempty"`
-	MapFieldWay     int  `json:"map_field_way,omitempty"`
-}
-
-type Case struct {
-	U    *tm.Universe `json:"u"`
-	O    Opts         `json:"o"`
-	Prev Opts         `json:"prev"` // options the converter object had before SetOptions(O)
-	Text []byte       `json:"text"`
-	Show string       `json:"show"` // Text, for reading (lossy when huge)
-	Want *tm.Value    `json:"want"` // value the document denotes; nil when Mode demands an error
-	Mode string       `json:"mode"` // valid | contradiction:<what> | malformed:<what> | unknown-disallowed
-	// a second, unrelated document converted afterwards with the same converter (earlier results must stay intact)
-	Text2      []byte    `json:"text2"`
-	Want2      *tm.Value `json:"want2"`
-	Feat       map[string]int `json:"feat,omitempty"`  // writer statistics of the first document (jsconv-i16, jsconv-null, ...)
-	Feat2      map[string]int `json:"feat2,omitempty"` // of the second document
-	BufCap     int       `json:"buf_cap"`
-	FreshPools bool      `json:"fresh_pools,omitempty"`
-}
-
-func toConv(o Opts) conv.Options {
-	return conv.Options{String2Int64: o.String2Int64, NoBase64Binary: o.NoBase64Binary, EnableValueMapping: o.ValueMapping, DisallowUnknownField: o.DisallowUnknown}
-}
-
-func sanitize(v *tm.Value) {
-	if v.K == tm.STRING {
-		v.S = []byte(strings.ToValidUTF8(string(v.S), "?"))
-	}
-	for _, f := range v.Fields {
-		sanitize(f.V)
-	}
-	for _, k := range v.Keys {
-		sanitize(k)
-	}
-	for _, e := range v.Elems {
-		sanitize(e)
-	}
-}
-
-var structural = []byte("{}[],:\"")
-
-func mutate(t *rapid.T, text []byte) ([]byte, string) {
-	if len(text) < 2 {
-		return text, ""
-	}
-	var pos []int
-	for i, b := range text {
-		if bytes.IndexByte(structural, b) >= 0 {
-			pos = append(pos, i)
-		}
-	}
-	pick := func() int {
-		if len(pos) > 0 && rapid.IntRange(0, 3).Draw(t, "atStructural") != 0 {
-			return pos[rapid.IntRange(0, len(pos)-1).Draw(t, "structPos")]
-		}
-		return rapid.IntRange(0, len(text)-1).Draw(t, "bytePos")
-	}
-	out := append([]byte(nil), text...)
-	switch rapid.IntRange(0, 4).Draw(t, "mutation") {
-	case 0:
-		i := rapid.IntRange(1, len(text)-1).Draw(t, "cut")
-		return out[:i], fmt.Sprintf("truncate@%d", i)
-	case 1:
-		i := pick()
-		return append(out[:i], out[i+1:]...), fmt.Sprintf("delete %q", text[i])
-	case 2:
-		i := pick()
-		r := []byte("{}[],:\"x0 \\")[rapid.IntRange(0, 10).Draw(t, "replacement")]
-		out[i] = r
-		return out, fmt.Sprintf("replace %q by %q", text[i], r)
-	case 3:
-		i := pick()
-		r := []byte(",:]}x\"-.e")[rapid.IntRange(0, 8).Draw(t, "insertion")]
-		out = append(out[:i], append([]byte{r}, text[i:]...)...)
-		return out, fmt.Sprintf("insert %q", r)
-	}
-	// control character inside the text
-	i := pick()
-	out[i] = []byte{0, 1, 0x1f, 0x7f, 0xff}[rapid.IntRange(0, 4).Draw(t, "ctl")]
-	return out, fmt.Sprintf("replace %q by byte %#x", text[i], out[i])
-}
-
-func show(b []byte) string {
-	if len(b) > 1200 {
-		return fmt.Sprintf("%s ...(%d bytes)... %s", b[:600], len(b), b[len(b)-500:])
-	}
-	return string(b)
-}
-
-func gen(t *rapid.T) Case {
-	var o Opts
-	o.String2Int64 = rapid.Bool().Draw(t, "string2int64")
-	o.NoBase64Binary = rapid.IntRange(0, 3).Draw(t, "noBase64") == 0
-	o.ValueMapping = rapid.Bool().Draw(t, "valueMapping")
-	o.DisallowUnknown = rapid.IntRange(0, 3).Draw(t, "disallowUnknown") == 0
-	o.MapFieldWay = rapid.IntRange(0, 2).Draw(t, "mapFieldWay")
-	prev := Opts{}
-	prev.String2Int64 = rapid.Bool().Draw(t, "prevString2int64")
-	prev.NoBase64Binary = rapid.Bool().Draw(t, "prevNoBase64")
-	prev.DisallowUnknown = rapid.Bool().Draw(t, "prevDisallow")
-	cfg := tm.GenCfg{MaxDepth: 3, KeyKinds: tjson.SupportedKeys, Reqs: true, Aliases: true, Recursive: true, WireOrder: true, ValidUTF8: true, FiniteDoubles: true,
-		BigSizes: rapid.IntRange(0, 4).Draw(t, "bigSizes") == 0, BigIDs: rapid.IntRange(0, 3).Draw(t, "bigIDs") == 0}
-	u := tm.GenUniverse(t, cfg)
-	tjson.AddJSConvTo(t, u, false)
-	v := tm.GenValue(t, u, u.Root, cfg)
-	if o.NoBase64Binary {
-		sanitize(v)
-	}
-	wo := tjson.WOpts{Opts: o.Opts, Nulls: rapid.Bool().Draw(t, "nulls"), Unknown: rapid.Bool().Draw(t, "unknowns"), StrInts: rapid.Bool().Draw(t, "strInts"),
-		UseNames: o.MapFieldWay}
-	mode := rapid.IntRange(0, 9).Draw(t, "mode")
-	wo.Contradict = mode == 7 || mode == 8
-	doc := tjson.Write(t, v, u.Root, u, wo, rapid.IntRange(0, 3).Draw(t, "variants") != 0)
-	cs := Case{U: u, O: o, Prev: prev, Text: doc.Text, Want: doc.Denote, Mode: "valid", Feat: doc.Stats}
-	switch {
-	case doc.Contradiction != "":
-		cs.Mode, cs.Want = "contradiction:"+doc.Contradiction, nil
-	case mode == 9 && u.Root.K != tm.STRING: // a root STRING accepts any unquoted text by design
-		if mt, what := mutate(t, doc.Text); what != "" {
-			if _, err := jmodel.ParseRaw(mt); err != nil && !strings.HasPrefix(err.Error(), "trailing data") && !strings.Contains(err.Error(), "duplicate member") {
-				cs.Text, cs.Mode, cs.Want = mt, "malformed:"+what, nil
-			}
-		}
-	}
-	if cs.Want != nil && doc.Unknown > 0 && o.DisallowUnknown {
-		cs.Mode, cs.Want = "unknown-disallowed", nil
-	}
-	cs.Show = show(cs.Text)
-	// second document: small, same descriptor
-	cfg2 := cfg
-	cfg2.MaxDepth, cfg2.BigSizes = 1, false
-	v2 := tm.GenValue(t, u, u.Root, cfg2)
-	if o.NoBase64Binary {
-		sanitize(v2)
-	}
-	d2 := tjson.Write(t, v2, u.Root, u, tjson.WOpts{Opts: o.Opts, UseNames: o.MapFieldWay}, false)
-	cs.Text2, cs.Want2, cs.Feat2 = d2.Text, d2.Denote, d2.Stats
-	cs.BufCap = []int{0, 1, 7, 16, 64, 4096, 100000}[rapid.IntRange(0, 6).Draw(t, "bufCap")]
-	if rapid.IntRange(0, 1).Draw(t, "bufFit") == 0 {
-		// a caller buffer just large enough for the document: the output outgrows it late
-		cs.BufCap = rapid.IntRange(len(cs.Text), 6*len(cs.Text)+24).Draw(t, "bufFitCap")
-	}
-	cs.FreshPools = rapid.IntRange(0, 15).Draw(t, "freshPools") == 0
-	return cs
-}
-
-// region names the known-finding region a failure of the given symptom falls into ("" = none).
-func region(cs Case, symptom string, feat map[string]int) string {
-	switch symptom {
-	case "accepted":
-		if strings.HasPrefix(cs.Mode, "malformed:") {
-			_, err := jmodel.ParseRaw(cs.Text)
-			r := "malformed:" + jmodel.ErrClass(err)
-			if feat["unknown-member"] > 0 {
-				r += "+unknown-members"
-			}
-			return r
-		}
-		return cs.Mode
-	case "wrong-encoding":
-		if cs.O.ValueMapping && feat["jsconv-i16"] > 0 {
-			return "jsconv-i16"
-		}
-	case "valid-rejected":
-		if cs.O.ValueMapping && feat["jsconv-null"] > 0 {
-			return "jsconv-null"
-		}
-	}
-	return ""
-}
-
-func check(c *pbt.Ctx, cs Case) {
-	comp, err := tm.CompileUniverse(cs.U, thrift.Options{MapFieldWay: meta.MapFieldWay(cs.O.MapFieldWay)})
-	if err != nil {
-		c.Failf("harness-idl", "IDL rejected: %v\n%s", err, cs.U.Render())
-	}
-	if cs.FreshPools {
-		runtime.GC()
-		runtime.GC()
-	}
-	ctx := context.Background()
-	cv := j2t.NewBinaryConv(toConv(cs.Prev))
-	cv.SetOptions(toConv(cs.O))
-	text := append(make([]byte, 0, len(cs.Text)+16), cs.Text...)
-	c.Step("j2t.Do mode=%s opts=%+v", cs.Mode, cs.O)
-	var out []byte
-	if !c.Protect("", func() { out, err = cv.Do(ctx, comp.Root, text) }) {
-		return
-	}
-	if !bytes.Equal(text, cs.Text) {
-		c.Failf("input-modified", "j2t.Do modified its input")
-	}
-	if cs.Want == nil {
-		if err == nil {
-			c.Fail(region(cs, "accepted", cs.Feat), "accepted", "mode %s: conversion succeeded with %d output bytes (%x); document: %s", cs.Mode, len(out), head(out), cs.Show)
-		}
-		c.Class("rejected:" + strings.SplitN(cs.Mode, ":", 2)[0])
-		if strings.HasPrefix(cs.Mode, "contradiction:") {
-			c.Class(strings.SplitN(cs.Mode, "<-", 2)[0])
-		}
-		c.NonTrivial()
-		return
-	}
-	if err != nil {
-		c.Fail(region(cs, "valid-rejected", cs.Feat), "valid-rejected", "a document denoting a conforming value is rejected: %v\ndocument: %s", err, cs.Show)
-		return
-	}
-	want := tm.Encode(cs.Want)
-	if !bytes.Equal(out, want) {
-		d := tm.DecodeCompare(cs.U.Root.K, out, cs.Want)
-		c.Fail(region(cs, "wrong-encoding", cs.Feat), "wrong-encoding", "output is not the encoding of the denoted value: %s\ndocument: %s\n got %x\nwant %x", d, cs.Show, head(out), head(want))
-		return
-	}
-	keep := append([]byte(nil), out...)
-	// DoInto with the drawn capacity
-	buf, guard := pbt.GuardedBuf(cs.BufCap)
-	c.Step("j2t.DoInto cap=%d", cs.BufCap)
-	var err2 error
-	if !c.Protect("", func() { err2 = cv.DoInto(ctx, comp.Root, text, &buf) }) {
-		return
-	}
-	if g := guard(buf); g != "" {
-		c.Failf("buffer-overflow", "DoInto(cap=%d): %s\ndocument: %s", cs.BufCap, g, cs.Show)
-		return
-	}
-	if err2 != nil || !bytes.Equal(buf, want) {
-		c.Fail(region(cs, "wrong-encoding", cs.Feat), "dointo-differs", "DoInto(cap=%d): err=%v, output differs from the expected encoding: %s\ndocument: %s", cs.BufCap, err2, tm.DecodeCompare(cs.U.Root.K, buf, cs.Want), cs.Show)
-		return
-	}
-	// a second conversion with the same converter; the first result must stay intact
-	c.Step("second j2t.Do")
-	var out2 []byte
-	if !c.Protect("", func() { out2, err2 = cv.Do(ctx, comp.Root, cs.Text2) }) {
-		return
-	}
-	if err2 != nil || !bytes.Equal(out2, tm.Encode(cs.Want2)) {
-		c.Fail(region(cs, "wrong-encoding", cs.Feat2), "second-conversion", "second document: err=%v %s\ndocument: %s", err2, tm.DecodeCompare(cs.U.Root.K, out2, cs.Want2), show(cs.Text2))
-		return
-	}
-	if !bytes.Equal(out, keep) {
-		c.Failf("result-aliased", "the bytes returned by the first Do changed during the second Do (result aliases a pooled buffer); first output had %d bytes", len(keep))
-		return
-	}
-	if tm.Count(cs.Want) >= 4 {
-		c.NonTrivial()
-	}
-	c.Class("valid")
-	if len(cs.Text) > 4096 {
-		c.Class("document>4096")
-	}
-	if len(want) > 4096 {
-		c.Class("output>4096")
-	}
-}
-
-func head(b []byte) []byte {
-	if len(b) > 300 {
-		return b[:300]
-	}
-	return b
-}
-
-var Prop = pbt.Register(pbt.Prop[Case]{
-	Name: "TestJSONToThrift",
-	Rule: "generated IDL (requiredness, api.key aliases x MapFieldWay, api.js_conv fields, recursion, ids up to 32767) + conforming values rendered as JSON with drawn member order, whitespace, escape forms (\\uXXXX, surrogate pairs, \\/), number spellings (decimal/exponent forms of integers <= 2^53, integer tokens for doubles, 17-digit doubles, strings under String2Int64), base64 binaries, decimal map keys, null members, unknown members (incl. the plain name of an aliased field) x options (String2Int64, NoBase64Binary, DisallowUnknownField, EnableValueMapping; set through SetOptions on a converter that had other options) x DoInto capacity; 20% of cases carry one wrong-kind value, 10% a byte-level mutation that the harness's RFC 8259 parser rejects inside the top-level value; oracle: output bytes == reference encoding of the denoted value (document order, nulls omitted, unknown skipped), error for contradiction/malformed/disallowed-unknown documents, first result intact after a second conversion; non-trivial = valid document with >= 4 value nodes, or a document that must be rejected",
-	Gen:  gen,
-	Check: check,
-})
+var Prop = pbt.Register(j2tcheck.Prop("TestJSONToThrift"))
 
 func TestJSONToThrift(t *testing.T) { pbt.Run(t, Prop) }
